@@ -1028,9 +1028,25 @@ class Interp:
                 self.add_side("bit-vector width (*)", z3.And(z3.BVMulNoOverflow(a, b, True), z3.BVMulNoUnderflow(a, b)))
                 return a * b
             if t is ast.Div and self.int_truediv_fp:
-                # python's int / int is the correctly rounded quotient: exactly fpDiv of the (exact) conversions
+                # python's int / int is the correctly rounded exact quotient.  For operands of <= 53 bits that is
+                # fpDiv of the exact conversions.  A wider dividend is admitted only over a concrete power of two:
+                # the division is then an exact scaling, so round-to-nearest of the dividend gives the same result.
                 self.add_side("division by zero (ZeroDivisionError)", b != 0)
+                bb = z3.simplify(b)
+                if a.size() > 53:
+                    if not (z3.is_bv_value(bb) and bb.as_signed_long() > 0 and bb.as_signed_long() & (bb.as_signed_long() - 1) == 0):
+                        raise Unsupported("true division of a %d-bit integer by a non power of two" % a.size())
+                    return z3.fpDiv(RNE, z3.fpSignedToFP(RNE, a, FP64), fp_val(float(bb.as_signed_long())))
                 return z3.fpDiv(RNE, self.int_to_fp(a), self.int_to_fp(b))
+            if t in (ast.Mod, ast.FloorDiv):
+                bb = z3.simplify(b)
+                if not (z3.is_bv_value(bb) and bb.as_signed_long() > 0):
+                    raise Unsupported("bit-vector %s by a symbolic or non-positive divisor" % t.__name__)
+                r = z3.SRem(a, b)
+                mod = z3.If(r < 0, r + b, r)          # python floor semantics for a positive divisor
+                if t is ast.Mod:
+                    return mod
+                return (a - mod) / b                   # exact signed division
             raise Unsupported("bit-vector operator " + t.__name__)
         if t is ast.Add:
             return a + b
@@ -1474,6 +1490,12 @@ class Interp:
                     return v
                 if z3.is_bool(v):
                     return self.bool_to_num(v)
+                if z3.is_fp(v) and self.num == "bv":
+                    # int(float): truncation toward zero; ValueError / OverflowError on NaN / inf; must fit the width
+                    lim = fp_val(float(2 ** (self.bvw - 2)))
+                    self.add_side("int(float) of NaN, infinity or a value outside the bit-vector width",
+                                  z3.And(z3.Not(z3.fpIsNaN(v)), z3.Not(z3.fpIsInf(v)), z3.fpLT(z3.fpAbs(v), lim)))
+                    return z3.fpToSBV(z3.RTZ(), v, z3.BitVecSort(self.bvw))
             raise Unsupported("int() of %s" % (v.sort() if is_sym(v) else type(v).__name__))
         if f is float:
             v = args[0]
